@@ -71,6 +71,11 @@ if "def" in ast.unparse(ast.parse("𝕕𝕖𝕗 = 1")):
                 v = getattr(node, field, None)
                 if _is_kw(v):
                     setattr(node, field, _mince(v))
+                elif (type(node) in (ast.alias, ast.ImportFrom)
+                        and type(v) is str and "." in v):
+                    # A dotted module name: mince each part.
+                    setattr(node, field, ".".join(
+                        _mince(p) if _is_kw(p) else p for p in v.split(".")))
                 elif type(v) is list and any(map(_is_kw, v)):
                     # E.g., the names of a `global` statement.
                     setattr(node, field, [_mince(x) if _is_kw(x) else x for x in v])
